@@ -530,8 +530,87 @@ func classify(in *input, obs []segObs) (sig string, stats map[string]int) {
 	return sig, stats
 }
 
+// declaredPerm computes the permission a scope specification gives to a key.
+func declaredPerm(sp scopeSpec, k []byte) byte {
+	if sp.Kind == "all" {
+		return 255
+	}
+	var p byte
+	for _, d := range sp.Decls {
+		if bytes.Equal(d.K, k) {
+			if sp.Kind == "add" {
+				p |= d.P
+			} else {
+				p = d.P
+			}
+		}
+	}
+	return p
+}
+
+// classifyPerm names the first class of permission violation visible in the observations.
+func classifyPerm(in *input, obs []segObs) string {
+	for si, sg := range in.Segs {
+		if si >= len(obs) || !obs[si].ScopeOK {
+			continue
+		}
+		prev := obs[si].Vis0
+		pidx := 0
+		for i, h := range sg.Hist {
+			if i >= len(obs[si].Steps) {
+				break
+			}
+			st := obs[si].Steps[i]
+			p := declaredPerm(sg.Scope, h.K)
+			okRes := st.Res.Kind == "ok" || st.Res.Kind == "val" || (st.Res.Kind == "err" && st.Res.C == 3)
+			switch h.Op {
+			case "get":
+				if okRes && p&1 != 1 {
+					return "undeclared-read-succeeded"
+				}
+				if !okRes && st.Res.C == 1 && p&1 == 1 {
+					return "declared-read-denied"
+				}
+			case "ins", "rem":
+				if okRes && p&5 != 5 {
+					return "undeclared-write-succeeded"
+				}
+				if !okRes && st.Res.C == 1 && p&7 == 7 {
+					return "declared-write-denied"
+				}
+				if okRes && h.Op == "ins" && p&3 != 3 {
+					for j, uk := range in.Univ {
+						if bytes.Equal(uk, h.K) && j < len(prev) && !prev[j].Exists {
+							return "create-without-allocate-succeeded"
+						}
+					}
+				}
+			}
+			if st.Res.Kind == "err" && h.Op != "rb" {
+				same := st.Idx == pidx && len(st.Vis) == len(prev)
+				for j := range st.Vis {
+					same = same && j < len(prev) && sameOval(st.Vis[j], prev[j])
+				}
+				if !same {
+					return "failed-operation-changed-state"
+				}
+			}
+			for j, uk := range in.Univ {
+				if declaredPerm(sg.Scope, uk)&5 != 5 && j < len(st.Vis) && j < len(obs[si].Vis0) && !sameOval(st.Vis[j], obs[si].Vis0[j]) {
+					return "non-write-key-changed"
+				}
+			}
+			prev, pidx = st.Vis, st.Idx
+		}
+	}
+	return ""
+}
+
 func finish(in *input, obs []segObs, kind string, prop string) emit.Case {
 	sig, stats := classify(in, obs)
+	if prop == "C05" {
+		sig = classifyPerm(in, obs)
+	}
 	if sig == "" {
 		sig = "none-seen-by-driver"
 	}
@@ -588,7 +667,11 @@ func (g *caseGen) valFor(ki int) []byte {
 			limit = 0
 		}
 	}
-	if r.Intn(100) < 12 { // deliberately around / above the bound
+	bias := 12
+	if g.prop == "C40" {
+		bias = 40
+	}
+	if r.Intn(100) < bias { // deliberately around / above the bound
 		l := boundaryLens[r.Intn(len(boundaryLens))]
 		return fill(l, byte(1+r.Intn(5)))
 	}
